@@ -230,6 +230,17 @@ impl TypeParams {
             match replace {
                 Some(ty) => {
                     let mut ty = ty.clone();
+                    // The concrete type may mention other declared parameters
+                    // (`type A = Vec<B>, type B = u8`): they are replaced as in the variant fields
+                    traverse_type(&mut ty, &mut |ty| {
+                        if let Type::Path(tp) = ty {
+                            if tp.qself.is_none() {
+                                if let Some(substitute) = self.find(&tp.path) {
+                                    *ty = substitute;
+                                }
+                            }
+                        }
+                    });
                     self.fix_source_lifetime_implicit(&mut ty);
                     generics.push(quote!(#ty))
                 }
